@@ -341,7 +341,9 @@ CLAIMED = {
              'runs no fairness code, F given labels a clone; (6) the effect '
              'summary of get_fair_states writes nothing reachable from K or '
              'F and its result is an object of its own; the clone that '
-             'receives the fair label shares no label set with K. Seven genuine '
+             'receives the fair label shares no label set with K; the CTL* '
+             'eliminator passes the fairness label it was given to every '
+             'recursive elimination and quantifier check. Seven genuine '
              'defects are listed as known findings (inverted fair-SCC '
              'predicate; inexact fair EG/AF/AU/ER and CTL*/LTL reductions).',
         ref='3-C15',
@@ -393,7 +395,10 @@ CLAIMED = {
              'restrict / negation recursions is allocated for that one '
              'top-level operation (their keys contain neither the operator, '
              'the ordering nor the lifetime of the nodes); ListOrdering '
-             'equality / order / membership folded on small lists. '
+             'equality / order / membership folded on small lists. No '
+             'method of a node class hands out a mutable container the '
+             '(shared, hash-consed) node keeps; the constructor reads an '
+             'explicit empty ordering like any other ordering. '
              'Reducedness follows from C16.',
         ref='3-C17',
         note='trusted: induction over operand size; step checked on all '
@@ -417,7 +422,9 @@ CLAIMED = {
              'child keeps its meaning when the composed template text is '
              'read by Python\'s grammar; the ordering object keeps no '
              'reference to the list it was built from and get_list() hands '
-             'out a copy (the lambda header of str(o) comes from it). Three genuine defects found and '
+             'out a copy (the lambda header of str(o) comes from it); an '
+             'explicit empty ordering takes the expression route, only a '
+             'missing one the lambda route. Three genuine defects found and '
              'repaired (fix: commits).',
         ref='3-C18',
         note='trusted: ast field types (Name.id, arg.arg: str; id(): int); '
